@@ -22,7 +22,9 @@ def nontrivial(req, obs):
 
 PROP = {
     "id": "C01",
-    "lean_targets": ["WmModel.Props.C01", "WmModel.Props.C01Conf"],
+    "lean_targets": ["WmModel.Props.C01", "WmModel.Props.C01Conf", "WmModel.Props.C01Stage", "WmModel.Props.C02Tie"],
+    # the stage facts (H1) are derived from the handleMessage model, so the body of handleMessage is re-extracted and its tie re-proved here too
+    "extract_also": ["C02"],
     "audit_module": "Audit.C01",
     "theorems": [
         "Wm.Pipeline.no_loss_inv", "Wm.Pipeline.ack_after_accept", "Wm.Pipeline.publishOk_creates_downstream",
@@ -33,8 +35,11 @@ PROP = {
         # what an accepted trace means (Props/C01Conf.lean): the driver's replay is a terminating run of the model
         "Wm.Pipeline.candidates_complete", "Wm.Pipeline.enabled_empty_terminal", "Wm.Pipeline.conf_ok_sound",
         "Wm.Pipeline.conf_ok_delivers",
+        # H1 derived from the C02/C03 models (Props/C01Stage.lean)
+        "Wm.Pipeline.ackCond_iff_ok", "Wm.Pipeline.stage_effect_eq_realEff", "Wm.Pipeline.classify_rep", "Wm.Pipeline.rep_wf",
+        "Wm.Pipeline.handle_stage_facts", "Wm.Pipeline.pipeline_refines_handle", "Wm.Pipeline.nopub_stage_never_acks_outputs",
     ],
-    "tie_theorems": [],
+    "tie_theorems": ["Wm.GoHandle.handle_skeleton_eq_model", "Wm.GoHandle.publish_skeleton_eq_model"],
     "harness": "c01",
     "race": True,
     "driver": "drv_c01",
